@@ -750,7 +750,7 @@ func (loader *Loader) resolveHeaderRef(doc *T, component *HeaderRef, documentPat
 				return err
 			}
 			if err := loader.resolveHeaderRef(doc, &resolved, componentPath); err != nil {
-				if err == errMUSTHeader {
+				if err == errMUSTHeader && resolved.isEmpty() {
 					return nil
 				}
 				return err
@@ -855,7 +855,7 @@ func (loader *Loader) resolveParameterRef(doc *T, component *ParameterRef, docum
 				return err
 			}
 			if err := loader.resolveParameterRef(doc, &resolved, componentPath); err != nil {
-				if err == errMUSTParameter {
+				if err == errMUSTParameter && resolved.isEmpty() {
 					return nil
 				}
 				return err
@@ -962,7 +962,7 @@ func (loader *Loader) resolveRequestBodyRef(doc *T, component *RequestBodyRef, d
 				return err
 			}
 			if err = loader.resolveRequestBodyRef(doc, &resolved, componentPath); err != nil {
-				if err == errMUSTRequestBody {
+				if err == errMUSTRequestBody && resolved.isEmpty() {
 					return nil
 				}
 				return err
@@ -1068,7 +1068,7 @@ func (loader *Loader) resolveResponseRef(doc *T, component *ResponseRef, documen
 				return err
 			}
 			if err := loader.resolveResponseRef(doc, &resolved, componentPath); err != nil {
-				if err == errMUSTResponse {
+				if err == errMUSTResponse && resolved.isEmpty() {
 					return nil
 				}
 				return err
@@ -1187,7 +1187,7 @@ func (loader *Loader) resolveSchemaRef(doc *T, component *SchemaRef, documentPat
 				return err
 			}
 			if err := loader.resolveSchemaRef(doc, &resolved, componentPath, visited); err != nil {
-				if err == errMUSTSchema {
+				if err == errMUSTSchema && resolved.isEmpty() {
 					return nil
 				}
 				return err
@@ -1311,7 +1311,7 @@ func (loader *Loader) resolveSecuritySchemeRef(doc *T, component *SecurityScheme
 				return err
 			}
 			if err := loader.resolveSecuritySchemeRef(doc, &resolved, componentPath); err != nil {
-				if err == errMUSTSecurityScheme {
+				if err == errMUSTSecurityScheme && resolved.isEmpty() {
 					return nil
 				}
 				return err
@@ -1379,7 +1379,7 @@ func (loader *Loader) resolveExampleRef(doc *T, component *ExampleRef, documentP
 				return err
 			}
 			if err := loader.resolveExampleRef(doc, &resolved, componentPath); err != nil {
-				if err == errMUSTExample {
+				if err == errMUSTExample && resolved.isEmpty() {
 					return nil
 				}
 				return err
@@ -1451,7 +1451,7 @@ func (loader *Loader) resolveCallbackRef(doc *T, component *CallbackRef, documen
 				return err
 			}
 			if err = loader.resolveCallbackRef(doc, &resolved, componentPath); err != nil {
-				if err == errMUSTCallback {
+				if err == errMUSTCallback && resolved.isEmpty() {
 					return nil
 				}
 				return err
@@ -1535,7 +1535,7 @@ func (loader *Loader) resolveLinkRef(doc *T, component *LinkRef, documentPath *u
 				return err
 			}
 			if err := loader.resolveLinkRef(doc, &resolved, componentPath); err != nil {
-				if err == errMUSTLink {
+				if err == errMUSTLink && resolved.isEmpty() {
 					return nil
 				}
 				return err
